@@ -313,6 +313,8 @@ PROPS["C10"] = dict(
          "with SNDHWM 1 and SNDTIMEO 300/800/1500 ms over tcp/ipc, peer A a DEALER that keeps requesting and never reads its 512 KiB replies "
          "until a send() parks, peer B a REQ whose request another task receives while the send is parked; after the parked send has failed and "
          "A reads again, the next reply must reach B and A must only ever see replies to its own requests. "
+         "(refused send) REP that never reads (RCVHWM 2), REQ with SNDHWM 2, RCVTIMEO 10 ms, SNDTIMEO 0/20 ms over inproc/tcp/ipc: after a send() refused "
+         "with would-block/timeout, recv() must be invalid-state at once and two retries must be refused the same way, never as invalid-state. "
          "distinct = (configuration, result vector) with >= 2 successful operations.",
     assumptions=["a timed-out or failed call is treated as not having taken effect only if the linearisation of successful calls still exists without it"],
     shards=lambda tier, seed: sharded("c10", _n(tier, 8, 16), _n(tier, 240, 900))
